@@ -229,7 +229,7 @@ func computeEffects(p *Pub) *Effects {
 		if rn == nil || (rn.Obj().Name() != "FederatingWrappedCallbacks" && rn.Obj().Name() != "SocialWrappedCallbacks") {
 			continue
 		}
-		if isActivityCallbackSig(f.Signature) {
+		if isActivityCallbackSig(f.Signature) && registeredInCallbacks(p, rn.Obj().Name(), f) {
 			E.wrapped = append(E.wrapped, f)
 		}
 	}
@@ -520,3 +520,30 @@ func (E *Effects) checkPremise(p *Pub, f *ssa.Function, ci ssa.CallInstruction, 
 }
 
 func (E *Effects) Info(ci ssa.CallInstruction) *CallInfo { return E.calls[ci] }
+
+// registeredInCallbacks: method f of the struct is handed out as a method
+// value by <struct>.callbacks (the only place where default callbacks are put
+// into the resolver). A method with a callback-like signature that is not
+// registered there (e.g. a per-element helper) is not a default callback.
+func registeredInCallbacks(p *Pub, structName string, f *ssa.Function) bool {
+	cb := p.Func(structName + ".callbacks")
+	if cb == nil {
+		return true // cannot tell: keep the old, wider reading
+	}
+	for _, b := range cb.Blocks {
+		for _, ins := range b.Instrs {
+			mc, ok := ins.(*ssa.MakeClosure)
+			if !ok {
+				continue
+			}
+			w, ok := mc.Fn.(*ssa.Function)
+			if !ok || !strings.HasPrefix(w.Synthetic, "bound method wrapper") {
+				continue
+			}
+			if o, ok := w.Object().(*types.Func); ok && o == f.Object() {
+				return true
+			}
+		}
+	}
+	return false
+}
